@@ -18,12 +18,14 @@ Theorem C09_invariant_reachable :
   forall (U V P : Type) (zeroV : V) n h (s : seqv U V P) rg' u u' l,
     r_hist zeroV n h (r_fresh zeroV s) u = Some (rg', u', l) -> rinv zeroV rg'.
 Proof. intros. eapply rinv_hist; [apply rinv_fresh|eassumption]. Qed.
+Print Assumptions C09_invariant_reachable.
 
 (* Current has no effect and returns the stored value ... *)
 Theorem C09_current_pure :
   forall (U V P : Type) (zeroV : V) n (rg : rgen U V P) u,
     r_op zeroV n OCurrent rg u = Some (rg, u, RVal (r_current rg)).
 Proof. exact current_pure. Qed.
+Print Assumptions C09_current_pure.
 
 (* ... which is the value delivered by the latest successful advance, ... *)
 Theorem C09_current_is_latest_yield :
@@ -32,14 +34,17 @@ Theorem C09_current_is_latest_yield :
     if b then exists r r', r_pending rg = Some r /\ resume zeroV n r zeroV u = Some (RYield (r_current rg') r' u')
     else r_pending rg' = None.
 Proof. exact current_after_MoveNext. Qed.
+Print Assumptions C09_current_is_latest_yield.
 
 (* ... the zero value before the first advance and after exhaustion *)
 Theorem C09_current_zero_before_first_advance :
   forall (U V P : Type) (zeroV : V) (rg : rgen U V P), rinv zeroV rg -> r_started rg = false -> r_current rg = zeroV.
 Proof. exact current_zero_before_first_advance. Qed.
+Print Assumptions C09_current_zero_before_first_advance.
 Theorem C09_current_zero_after_exhaustion :
   forall (U V P : Type) (zeroV : V) (rg : rgen U V P), rinv zeroV rg -> r_pending rg = None -> r_current rg = zeroV.
 Proof. exact current_zero_after_exhaustion. Qed.
+Print Assumptions C09_current_zero_after_exhaustion.
 
 (* an advance that reports false leaves the generator exhausted ... *)
 Theorem C09_false_means_exhausted :
@@ -47,6 +52,7 @@ Theorem C09_false_means_exhausted :
     r_op zeroV n o rg u = Some (rg', u', a) ->
     (a = RBool false \/ exists y, a = RSent y false) -> r_pending rg' = None.
 Proof. exact false_means_exhausted. Qed.
+Print Assumptions C09_false_means_exhausted.
 
 (* ... and from then on every operation leaves the world untouched (no generator
    code runs), keeps it exhausted and keeps Current and Result *)
@@ -55,10 +61,12 @@ Theorem C09_exhaustion_permanent :
     r_pending rg = None -> (forall f, o <> OWorld f) -> r_op zeroV n o rg u = Some (rg', u', a) ->
     u' = u /\ r_pending rg' = None /\ r_current rg' = r_current rg /\ r_result rg' = r_result rg.
 Proof. exact exhausted_stable. Qed.
+Print Assumptions C09_exhaustion_permanent.
 Theorem C09_exhausted_MoveNext_false :
   forall (U V P : Type) (zeroV : V) n (rg : rgen U V P) u,
     r_pending rg = None -> r_op zeroV n OMoveNext rg u = Some (r_setstarted rg, u, RBool false).
 Proof. exact exhausted_MoveNext. Qed.
+Print Assumptions C09_exhausted_MoveNext_false.
 
 (* Send on an unstarted generator first advances it to its first yield (dropping
    that value), then behaves like Send on a started one *)
@@ -73,6 +81,7 @@ Theorem C09_send_unstarted :
       | Some (rg1, u1, a) => Some (rg1, u1, a)
       end.
 Proof. exact send_unstarted. Qed.
+Print Assumptions C09_send_unstarted.
 
 (* Send on a started generator resumes it with v as the value of the pending yield
    and returns the next yielded value *)
@@ -89,20 +98,24 @@ Theorem C09_send_delivers_value :
           Some ({| r_started := true; r_pending := None; r_current := zeroV; r_result := res |}, u', RSent zeroV false)
       end.
 Proof. exact send_delivers_value. Qed.
+Print Assumptions C09_send_delivers_value.
 
 (* Result: pure, zero until completion, the return value afterwards *)
 Theorem C09_result_pure :
   forall (U V P : Type) (zeroV : V) n (rg : rgen U V P) u,
     r_op zeroV n OResult rg u = Some (rg, u, RVal (r_result rg)).
 Proof. exact result_pure. Qed.
+Print Assumptions C09_result_pure.
 Theorem C09_result_zero_until_done :
   forall (U V P : Type) (zeroV : V) (rg : rgen U V P), rinv zeroV rg -> r_pending rg <> None -> r_result rg = zeroV.
 Proof. exact result_zero_until_done. Qed.
+Print Assumptions C09_result_zero_until_done.
 Theorem C09_result_is_return_value :
   forall (U V P : Type) (zeroV : V) n sent (rg rg' : rgen U V P) u u' r,
     r_pending rg = Some r -> r_moveNext zeroV n sent rg u = Some (rg', u', inl false) ->
     resume zeroV n r sent u = Some (RDone (r_result rg') u').
 Proof. exact result_set_on_completion. Qed.
+Print Assumptions C09_result_is_return_value.
 
 (* non-vacuity: a two-yield generator with a return value, driven through all four operations *)
 Example C09_example :
